@@ -193,6 +193,28 @@ static void basis_run (long item)
 				mpq_QSfree_basis (wb);
 				mpq_QSfree_prob (pw);
 			}
+			/* the direct rational simplex from the same basis (loaded through the API; a singular one is repaired by the library) */
+			for (int ai = 0; ai < 2; ai++) {
+				mpq_QSprob pw = qsx_build (L, ROUTE_LOAD, 0);
+				if (!pw) continue;
+				int st = 0, rv = mpq_QSload_basis (pw, &qb);
+				if (!rv) rv = ai ? mpq_QSopt_primal (pw, &st) : mpq_QSopt_dual (pw, &st);
+				STAT ("executions"); STAT ("warm_starts_direct");
+				int want = T->status == TRUTH_OPTIMAL ? QS_LP_OPTIMAL : T->status == TRUTH_INFEASIBLE ? QS_LP_INFEASIBLE : QS_LP_UNBOUNDED;
+				mpq_t v; mpq_init (v);
+				tr_int (rv); tr_int (st);
+				int known_dual = (!ai && want == QS_LP_UNBOUNDED && !rv && (st == QS_LP_INFEASIBLE || st == QS_LP_UNSOLVED));   /* KF-C04-dual-unbounded-* */
+				if (known_dual) STAT ("skipped_dual_on_unbounded");
+				else if (rv || st != want || (want == QS_LP_OPTIMAL && (mpq_QSget_objval (pw, &v) || !mpq_equal (v, T->val)))) {
+					bdesc (L, cs, rs, desc, sizeof desc);
+					char sig[96]; snprintf (sig, sizeof sig, "warmstart-direct-%s-truth-%s-got-%s", ai ? "primal" : "dual", status_name (want), rv ? "ERR" : status_name (st));
+					char *a = q_str (v);
+					viol ("C04", sig, "%s after mpq_QSload_basis of this basis returns rval=%d status=%s value=%s, the LP is %s: %s", ai ? "mpq_QSopt_primal" : "mpq_QSopt_dual", rv, status_name (st), a, status_name (want), desc);
+					free (a);
+				}
+				mpq_clear (v);
+				mpq_QSfree_prob (pw);
+			}
 		}
 		/* ---- C14: basis file round trip (also for singular bases: the file format does not care) */
 		if (o_files) {
